@@ -634,7 +634,7 @@ func epPeeringRequest(t *testing.T, id ident) (v verdict) {
 func TestC01(t *testing.T) {
 	env := kit.GetEnv()
 	rep := kit.NewReport("C01", env)
-	rep.Rule = "per base identity: the valid identity, every single field deviation (128 address bit flips + 7 foreign/invalid addresses, 14 other known + 4 unknown hash names incl. empty and 300-byte, 5 key-type names incl. empty/256-byte, 256 key bit flips + 5 odd key sizes + zero key, 3 easing values) at all six entry points; every PAIR of deviations of different fields at the pure entry points; ~50 self-consistent forgeries (address recomputed as the digest of a malformed identity: 5 hashes x 5 key-type names x 6 key sizes) and 6 well-formed identities whose matching digest lies outside fd00::/8, at all entry points; the address of an already known router presented with a foreign key (hop record, ping header); presentation sequences bad->good and good->bad on one long-lived router; announcements with chains of 2 and 3 nested hop records of unknown routers (every resulting record and session bound to its own address and key); generator over all subsets of a 5-prefix acceptable alphabet x all subsets of a 4-prefix ignore alphabet x maxEasing {0,3} (satisfiable ones + cheap unsatisfiable ones), each call sharing its ignore list with an earlier call for another acceptable set; non-trivial = case deviates from the valid identity; distinct = distinct (identity, entry point)"
+	rep.Rule = "per base identity: the valid identity, every single field deviation (128 address bit flips + 7 foreign/invalid addresses, 14 other known + 4 unknown hash names incl. empty and 300-byte, 5 key-type names incl. empty/256-byte, 256 key bit flips + 5 odd key sizes + zero key, 3 easing values; plus an identity that really uses easing with 14 other easing values incl. ones differing only in a high-order byte) at all six entry points; every PAIR of deviations of different fields at the pure entry points; ~50 self-consistent forgeries (address recomputed as the digest of a malformed identity: 5 hashes x 5 key-type names x 6 key sizes) and 6 well-formed identities whose matching digest lies outside fd00::/8, at all entry points; the address of an already known router presented with a foreign key (hop record, ping header); presentation sequences bad->good and good->bad on one long-lived router; announcements with chains of 2 and 3 nested hop records of unknown routers (every resulting record and session bound to its own address and key); generator over all subsets of a 5-prefix acceptable alphabet x all subsets of a 4-prefix ignore alphabet x maxEasing {0,3} (satisfiable ones + cheap unsatisfiable ones), each call sharing its ignore list with an earlier call for another acceptable set; non-trivial = case deviates from the valid identity; distinct = distinct (identity, entry point)"
 	rep.Assumptions = []string{
 		"the reference predicate uses crop's hash primitives (not m/address.go) to recompute digests",
 		"key material inside the generator comes from the process RNG: the prefix-configuration space is exhaustive, the key space cannot be",
@@ -736,6 +736,37 @@ func TestC01(t *testing.T) {
 				v.accepted = string(tw.storedKey(id.ip)) != string(pool[4].PublicKey) || kit.TableKey(tw.r) != before
 				return v
 			}(), false)
+		}
+
+		// an identity that really uses easing (address = digest incl. easing value 3):
+		// every other easing value, in particular one that differs only in its
+		// high-order bytes, must be refused at every pure entry point.
+		if bi == 0 && mine() {
+			d := kit.NewDRBG("c01-easing", 1)
+			var eased ident
+			for tries := 0; ; tries++ {
+				if tries > 200000 {
+					panic("harness: no eased identity found")
+				}
+				pub, priv, _ := ed25519.GenerateKey(d)
+				ip, err := m.DigestToAddress(crop.BLAKE3, crop.KeyPairTypeEd25519, pub, 3)
+				if err == nil && ip.As16()[0] == 0xfd && m.RoutingAddressPrefix.Contains(ip) && !m.InternalPrefix.Contains(ip) {
+					eased = ident{ip: ip, hash: crop.BLAKE3, typ: crop.KeyPairTypeEd25519, key: pub, priv: priv, easing: 3, note: "valid"}
+					break
+				}
+			}
+			cases := []ident{eased}
+			for _, e := range []uint64{0, 2, 4, 3 | 1<<56, 3 | 1<<48, 3 | 1<<40, 3 | 1<<32, 3 | 1<<24, 3 | 1<<16, 3 | 1<<8, 3 | 1<<63, 3 | 0xFF<<56, 3 << 8, 3 << 56} {
+				id := eased
+				id.easing = e
+				id.note = fmt.Sprintf("easing=%#x instead of 3", e)
+				cases = append(cases, id)
+			}
+			for _, id := range cases {
+				judge("VerifyAddress", id, epVerifyAddress(id), false)
+				judge("AddressFromStorage", id, epFromStorage(id, hex.EncodeToString(id.priv)), false)
+				judge("AddressFromKeyPair", id, epFromKeyPair(id), false)
+			}
 		}
 
 		// chains of two and three hop records of routers unknown so far: every
